@@ -895,6 +895,13 @@ fn spawn_response_loop(
 
             #[cfg(feature = "verif-hooks")]
             crate::verif_hooks::probe("async_client.reader.received", response.header.id);
+            // A frame with the notify flag set is a server push, never the
+            // response to a call, even when it reuses an in-flight id. This
+            // client has no notify subscriber, so the push is dropped (silently,
+            // like the WebSocket client does without a subscriber).
+            if response.header.notify != 0 {
+                continue;
+            }
             let dispatch = {
                 let Some(inner_ref) = inner.upgrade() else {
                     break;
